@@ -700,7 +700,7 @@ impl ReconstructionSettings {
         line_ending: LineEnding,
         tab: TabKind,
         indent_width: u8,
-        continuation_width: u8,
+        continuation_width: u16,
     ) -> Self {
         let newline_str = match line_ending {
             LineEnding::Crlf => "\r\n",
